@@ -35,35 +35,9 @@
      false  p = byteconv.S2B( *dst); p, err = x2bytes.ToBytes(p, src)
                                                                  -- the pinned commit: appends *)
 From Coq Require Import ZArith Bool String Ascii List Floats.SpecFloat.
-From Verif Require Import Util Ints Strconv Floats.
+From Verif Require Import Util Ints Strconv Floats AssignVal.
 Import ListNotations.
 Local Open Scope Z_scope.
-
-(* ---------- values ---------- *)
-Inductive skind := KB | KI (k : ikind) | KF32 | KF64 | KS | KBy.
-
-Inductive sval :=
-| VBool (b : bool)
-| VInt (k : ikind) (z : Z)
-| VF32 (f : spec_float)
-| VF64 (f : spec_float)
-| VStr (s : string)
-| VBytes (s : string).
-
-Definition kind_of (v : sval) : skind :=
-  match v with
-  | VBool _ => KB | VInt k _ => KI k | VF32 _ => KF32 | VF64 _ => KF64 | VStr _ => KS | VBytes _ => KBy
-  end.
-
-Inductive source :=
-| SVal (v : sval)        (* T *)
-| SPtr (v : sval)        (* *T, not nil *)
-| SNil (k : skind)       (* ( *T)(nil) *)
-| SForeign.              (* any other dynamic type, or the nil interface *)
-
-Inductive dest :=
-| DPtr (old : sval)      (* *T pointing at a variable that holds [old] *)
-| DForeign.
 
 (* ---------- outcomes ---------- *)
 Inductive pkind := NilDeref | TypeAssert.
@@ -77,7 +51,6 @@ Arguments Unmodelled {A}.
 Definition bind {A B} (x : out A) (f : A -> out B) : out B :=
   match x with Ret a => f a | Panic k => Panic k | Unmodelled => Unmodelled end.
 
-Inductive owner := ONone | OSrc | OBuf (off : nat) | OOld | OFresh.
 
 (* what a successful assign function did *)
 Record effect := { e_val : sval; e_own : owner; e_buf : option string }.
@@ -332,3 +305,7 @@ Definition assign (dst : dest) (src : source) : outcome :=
   end.
 
 End Assign.
+
+(* (ok, destination) of an outcome *)
+Definition result (o : outcome) : option (bool * dest) :=
+  match o with Done ok d _ _ => Some (ok, d) | _ => None end.
